@@ -181,12 +181,16 @@ def fire (oracle : Parent α) (f : FamSt α) (slot : Nat) (v : α) : Except Err 
 /-- `setParameterValue(name, value)` (AbstractParametrizable.h:64-68, Parameter.cpp:57-67):
 an unknown name raises; a value different from the current one is checked against the
 constraint; `fireParameterChanged` is then called in every case -/
+def rejects (f : FamSt α) (slot : Nat) (v : α) : Bool :=
+  match paramConstraint f slot with
+  | some c => !(c.isCorrect v)
+  | none => false
+
 def setParameterValue (oracle : Parent α) (f : FamSt α) (name : String) (v : α) : Except Err (FamSt α) :=
   match paramSlot f name with
   | none => .error .notfound
   | some slot =>
-    if !(Scalar.eqb (paramValue f slot) v) &&
-       (match paramConstraint f slot with | some c => !(c.isCorrect v) | none => false)
+    if !(Scalar.eqb (paramValue f slot) v) && rejects f slot v
     then .error .constraint
     else fire oracle f slot v
 
